@@ -272,6 +272,14 @@ func run(repo, dir string, seed uint64, nunits, nvalues int, cfg idlgen.Config, 
 			// map order is canonicalised on the harness side before the line goes to impl.txt
 			if raw, err := hex.DecodeString(strings.TrimPrefix(ans[3:], "-")); err == nil {
 				if cb, err := refcodec.Canon(raw); err == nil {
+					if c != nil && has(c.unit.Options, "reorder_fields") {
+						// reorder_fields permutes the struct layout and with it the order in which Write emits the
+						// fields: compared with the model modulo field order; the byte-level difference is the
+						// oracle's business (presentation clause, below)
+						if sb, err := sortFields(cb); err == nil {
+							cb = sb
+						}
+					}
 					impl = "ok " + hex.EncodeToString(cb)
 				} else {
 					impl = "ok malformed:" + ans[3:]
@@ -304,7 +312,15 @@ func run(repo, dir string, seed uint64, nunits, nvalues int, cfg idlgen.Config, 
 			if c.expect != nil {
 				exp = c.expect.String()
 			}
-			out.Fail(vl.OracleFail{Key: line, What: c.what + ": " + msg,
+			key := line
+			if msg == "PRESENTATION:field-order" {
+				key = "presentation:" + strings.Join(c.unit.Options, ",") + ":wire-field-order"
+				if has(c.unit.Options, "reorder_fields") {
+					key = "presentation:reorder_fields:wire-field-order"
+				}
+				msg = "the option set changes the order in which struct fields are written (bytes differ from the default option set's)"
+			}
+			out.Fail(vl.OracleFail{Key: key, What: c.what + ": " + msg,
 				Input:    map[string]interface{}{"unit": c.unit.Key, "options": c.unit.Options, "backend": c.unit.Backend, "schema": c.unit.SchemaLines(), "op": line, "idl_dir": c.unit.IDLDir},
 				Expected: exp, Observed: ans})
 			out.Sample(map[string]string{"op": line, "got": ans, "why": msg})
@@ -456,6 +472,22 @@ func verdict(c *check, ans string) string {
 		}
 		if !refcodec.Equal(got, c.expect) {
 			return "bytes decode to " + got.String() + ", expected " + c.expect.String()
+		}
+		// presentation-only options must not change a single wire byte: the bytes equal the reference
+		// encoding (fields in IDL order; map entries canonical) for every unit without keep_unknown_fields
+		if c.what == "W" && c.value != nil {
+			if ref, err := refcodec.Encode(s, c.sidx, c.value); err == nil {
+				cr, e1 := refcodec.Canon(ref)
+				ci, e2 := refcodec.Canon(raw)
+				if e1 == nil && e2 == nil && hex.EncodeToString(cr) != hex.EncodeToString(ci) {
+					si, _ := sortFields(ci)
+					sr, _ := sortFields(cr)
+					if hex.EncodeToString(si) == hex.EncodeToString(sr) {
+						return "PRESENTATION:field-order"
+					}
+					return "bytes differ from the reference encoding of the same value"
+				}
+			}
 		}
 		return ""
 	case "BL":
